@@ -158,8 +158,7 @@ boxes below it and the current box of its leaf.**  Conditions: ids `< u32::MAX`,
 rebuilt leaves with pairwise different ids and valid boxes, `rebalance` only called on a settled tree (right after
 `refit`, `clear_and_rebuild` or `rebalance` — as its documentation requires), all intermediate sizes fit `u32`
 (`AllSmall`); corrected root split.  If the run of the model completes, then `Inv` and `BoxInv` hold at the end.
-(Completion: every step other than `refit` is total — `step2_total`; `refit` terminates whenever the free list is empty —
-`refit_terminates`; its termination after a `rebalance` that leaves ids parked in the free list is not proved.) -/
+(Completion is proved separately: `full_history_total` / `every_full_history_ends_valid` in `Theorems5.lean`.) -/
 theorem full_history_valid_after_refit (ops : List (Op2 K)) (m : K) (w' : World K) :
     letI := fieldNum K sq
     (∀ op ∈ ops, Op2OkB sq op) → 0 ≤ m → WellPlaced false (ops ++ [.base (.refit m)]) →
